@@ -828,7 +828,7 @@ func (multi *MultiEpoch) processSlotTransactions(
 			block, err := multi.GetBlock(ctx, &old_faithful_grpc.BlockRequest{Slot: slot})
 			if err != nil {
 				if status.Code(err) == codes.NotFound {
-					return nil
+					continue // a slot without a block does not end the stream
 				}
 				return err
 			}
